@@ -380,6 +380,50 @@ def l8(rep):
         rep.ok("L8", "length-is-the-length-held", sample={"functions": nfun, "constant-length calls on byte arrays": n})
 
 
+L9_SETTERS = ("fesetenv", "feupdateenv", "fesetround", "_controlfp", "_control87", "__setfpucw", "fpsetround", "fpsetmask",
+              "_mm_setcsr", "_MM_SET_FLUSH_ZERO_MODE", "_MM_SET_DENORMALS_ZERO_MODE", "fiIeeeSetRoundingMode", "fiIeeeSetEnabledExceptions")
+
+
+def l9(rep):
+    """Literals are converted where the program happens to need them: folded by the compiler, or converted by the run time of
+    the executable or of the interpreter.  All three use the same primitive, and give the same value only if they run in the
+    same floating-point environment -- the default one.  fiInitialiseFpu is called at the start of every executable and of the
+    interpreter, after the compiler has folded what it folds: if it changes the environment (flush-to-zero, another rounding
+    mode), a subnormal single-float literal converted at run time becomes 0 while the same literal folded keeps its value.
+    On this platform fiInitialiseFpu and what it calls contain no inline assembly and no call of an environment setter."""
+    f = common.extract("foam_cfp.c", "runtime", all_trees=True)
+    fn = f.funcs.get("fiInitialiseFpu")
+    if fn is None or "body" not in fn:
+        raise AnalysisBroken("fiInitialiseFpu not found in foam_cfp.c")
+    seen, work, bad = set(), ["fiInitialiseFpu"], []
+    while work:
+        name = work.pop()
+        if name in seen:
+            continue
+        seen.add(name)
+        g = f.funcs.get(name)
+        if g is None or "body" not in g:
+            continue
+        for x in walk(g["body"]):
+            if x["k"] in ("GCCAsmStmt", "MSAsmStmt", "AsmStmt"):
+                bad.append((name, x["l"], "inline assembly"))
+            elif x["k"] == "CallExpr":
+                cal = x.get("callee")
+                if cal in L9_SETTERS:
+                    bad.append((name, x["l"], "call of %s" % cal))
+                elif cal:
+                    work.append(cal)
+    if bad:
+        name, line, what = bad[0]
+        rep.violation("L9", "start-up-leaves-the-float-environment", "foam_cfp.c:%d (%s)" % (line, name),
+                      "the start-up hook of every executable and of the interpreter changes the floating-point environment (%s): "
+                      "literals converted at run time are then converted under other rules than the ones the compiler folded "
+                      "them under -- with flush-to-zero a subnormal SingleFloat literal is 0 at -Q0 and its exact value at -Q2"
+                      % what)
+    else:
+        rep.ok("L9", "start-up-leaves-the-float-environment", sample={"functions looked at": sorted(seen)})
+
+
 def run(tier, only=None):
     rep = common.Report("C19", tier, EXPLANATION)
     # ---- L5 and L4 first: they need nothing from C04 ----
@@ -387,6 +431,7 @@ def run(tier, only=None):
     sentinels(rep, "L6")
     constant_precision(rep, "L7")
     l8(rep)
+    l9(rep)
     deferred = None
     try:
         l4(rep)
